@@ -97,6 +97,11 @@ def scenario(exe, shim, root, seed, stats, tier):
         shutil.rmtree(a.root); shutil.copytree(backup, a.root, symlinks=True)
         err = errno.ENOSPC if (op == 'pwrite' and rng.chance(1, 3)) else errno.EIO
         env = {'LD_PRELOAD': shim, 'VERIF_FAIL': '%s:%s:%d:%d' % (op, sub, k, err), 'VERIF_LOG': lg, 'VERIF_COUNT': cnt, 'VERIF_FAIL_N': str(nfault)}
+        if op == 'pread' and nfault == 1 and rng.chance(1, 2):
+            # a bad sector in the MIDDLE of a block: the read that hits it returns the bytes before it (a legal short read),
+            # the error comes with the read that continues the block
+            env['VERIF_FAIL_SHORT'] = '1'
+            stats['short_then_error'] = stats.get('short_then_error', 0) + 1
         r = a.cmd(cmdkind, *args, env=env)
         fails = parse_failed_call(lg)
         if os.path.exists(lg): os.unlink(lg)
@@ -234,7 +239,7 @@ def main(tier, seed):
             chk.violation('C08 static obligation failed: ' + o[0], o[0] + '\n' + o[2], False, 'static')
     chk.evaluations = stats['runs']
     chk.distinct = stats['fired']
-    chk.rule = ('%d seeded arrays x {sync with pending changes, scrub -p full} x --test-io-cache in {1,3,4,16,128}; one call class per array (data pread, parity pread, parity pwrite) failing with EIO (ENOSPC for 1/3 of the writes) at call index k in {first, middle, last-1, last, seeded}; oracle: non-zero exit, the stripe of the failing offset is not (all BLK and not bad) in the Lean-decoded content written afterwards, follow-up sync / fix -e + scrub -p bad re-establishes the C06 invariant. distinct_nontrivial = runs in which the shim reports the fault fired' % n)
+    chk.rule = ('%d seeded arrays x {sync with pending changes, scrub -p full} x --test-io-cache in {1,3,4,16,128}; one call class per array (data pread, parity pread, parity pwrite) failing with EIO (ENOSPC for 1/3 of the writes) at call index k in {first, middle, last-1, last, seeded}; oracle: non-zero exit, the stripe of the failing offset is not (all BLK and not bad) in the Lean-decoded content written afterwards, follow-up sync / fix -e + scrub -p bad re-establishes the C06 invariant. distinct_nontrivial = runs in which the shim reports the fault fired; a third of the arrays run with -L 1..3 and as many (or one fewer) consecutive faults, only stripes up to the stop position are judged; half of the single read faults are a short read followed by the error on the continuing read' % n)
     chk.samples = [dict(stats)]
     chk.corr['E2E-EIO'] = dict(stats)
     chk.finish()
